@@ -16,8 +16,15 @@ MANIFEST_ENTRY = {
           "value stack and frame chain at their initial depths, and a pc - in particular a reapply loop head - is reached at the "
           "same depth at every iteration; for all 73^3 token triples, all sequences of length <= 5 over the reduced alphabet and all "
           "sequences of length 7 over a ten-token alphabet every accepted program outside the listed finding classes (and without bare `;;`) is typable; machine-checked "
-          "witnesses show each excluded class is untypable. The inductive static theorem over all trees is stated, not proved: "
-          "proof (partial). On every run the depth harness builds each program on both data implementations and executes it "
+          "witnesses show each excluded class is untypable. Inductive static theorem (C06_static_full, by induction on the tree through "
+          "Model/Compile.v with a ghost depth assigned to every emitted instruction, every placeholder and every join): for EVERY "
+          "proper tree that keeps the arity discipline of Proofs/C06/Balanced.v (operand positions leave one operand, attachment "
+          "positions none, an else-chain ends in a final else, `^~` where nothing is pending, no `;;`) and EVERY initial state of the "
+          "data object, the program the tree compiler builds is typable, ends every expression at depth one and is entered at (0,0); "
+          "C06_balanced_covers_*: on the same three bounded input spaces every accepted program outside the finding classes keeps the "
+          "discipline (beyond the bounds this is checked per program on every run, field L of the model driver). The tree compiler is "
+          "tied to the worklist model of build() by the bounded agreement theorems of C05 and per program on every run. "
+          "On every run the depth harness builds each program on both data implementations and executes it "
           "step by step; every observed step must be a move of the abstract machine, the observed depths must equal the typed "
           "ones, and the native abstract interpretation of the real instruction stream must agree with the extracted Coq one.",
   "design_ref": "DESIGN.md section 8 C06"
@@ -169,6 +176,20 @@ def evaluate(v, cases, impl, model, stats, samples, distinct, listed):
             listings.append(("basic", None, g.get("AB")))
         d, why = cl.infer_native(lst)
         typable = d is not None
+        # the inductive static theorem covers the trees that keep the arity discipline (L=1): every accepted program
+        # outside the finding classes must keep it, and a program that keeps it must be typable
+        if mres is not None and g.get("B") == b and g.get("L") in ("0", "1"):
+            stats["discipline"][g["L"]] = stats["discipline"].get(g["L"], 0) + 1
+            if g["L"] == "0" and not tags:
+                stats["discipline_gaps"] += 1
+                if stats["discipline_gaps"] <= 5:
+                    v.tie_failure("accepted program outside the finding classes does not keep the arity discipline of "
+                                  "C06_static_full: %s (%r)" % (case, cl.case_source(case)))
+            if g["L"] == "1" and not typable:
+                stats["discipline_gaps"] += 1
+                if stats["discipline_gaps"] <= 5:
+                    v.tie_failure("a tree that keeps the arity discipline built an untypable program (contradicts "
+                                  "C06_static_full): %s (%r): %s" % (case, cl.case_source(case), why))
         if mres is not None and g.get("B") == b and g.get("D") not in (None, "-"):
             coq_ok = g["D"].startswith("ok")
             if coq_ok != typable:
@@ -221,7 +242,7 @@ def new_stats(n):
     return {"cases": n, "kinds": {}, "outcomes": {}, "static": {"typable": 0, "untypable": 0}, "dynamic": {}, "known_hits": {},
             "model_disagreements": 0, "compile_disagreements": 0, "checker_disagreements": 0, "classifier_disagreements": 0, "basic_differs": 0,
             "excluded_bare_terminator": 0, "excluded_empty_program": 0, "property_failures": 0, "typed_but_unbalanced": 0,
-            "executed_instructions": {}}
+            "executed_instructions": {}, "discipline": {}, "discipline_gaps": 0}
 
 
 def run(tier, seed):
